@@ -44,6 +44,11 @@ def gen_tone(rng):
         start, nchans, ks = 1, 1, [1]
     k = rng.choice(ks)
     L = rng.choice([16, 32, 64, 15, 9, 33]); I = rng.choice([1, 2, 3])        # odd fine-FFT lengths too
+    # a block computed in as many sub-blocks as the backend allows (one antenna query per group of `taps` windows), with a fine FFT that
+    # spans many of those queries and the tone far from fch1: the tone must stay where it is however the block is cut up
+    many = rng.random() < 0.3
+    if many:
+        L = rng.choice([32, 64]); k = max(ks)
     asc = rng.random() < 0.5
     fch1 = float(rng.choice([0, 10 ** 9, 6 * 10 ** 9]))
     r = rng.random()
@@ -51,6 +56,12 @@ def gen_tone(rng):
         frac = rng.choice([m for m in range(-int(0.4 * L), int(0.4 * L) + 1) if m != 0]) / L        # on a fine-bin centre
     else:
         frac = rng.choice([-1, 1]) * rng.uniform(0.03, 0.4)
+    if many:
+        # the frozen statistics come from the first query alone (`taps` windows): the tone has to complete about a turn within it, or the
+        # estimated mean -- subtracted from the whole block -- leaves a DC line as strong as the tone (a quantiser matter, not C07's)
+        frac = rng.choice([-1, 1]) * rng.uniform(0.25, 0.4)
+        if rng.random() < 0.35:
+            frac = round(frac * L) / L
     f = fch1 + (1 if asc else -1) * (k + frac) * cbw
     num_pols = rng.choice([1, 2, 2]); nbits = rng.choice([4, 8, 8]); nants = rng.choice([1, 1, 2])
     rows = rng.choice([2, 4, 6]) * I
@@ -61,7 +72,7 @@ def gen_tone(rng):
     spb = L * rows
     bps = 2 * num_pols * nbits // 8
     drift = 0.0
-    if rng.random() < 0.35 and L >= 15:
+    if rng.random() < 0.35 and L >= 15 and not many:
         # move by a few fine bins over the block.  To keep the spectral peak well defined (a DSP matter, not what C07 is about) the sweep
         # stays at least two fine bins inside the coarse channel (no aliasing at the channel edge) and moves at most half a bin per spectrum
         rows = 6 * I
@@ -81,6 +92,11 @@ def gen_tone(rng):
              req=dict(fwhm=8 if nbits == 4 else 32))
     if nants > 1:
         c["delays"] = [0] * nants
+    if many:
+        # quantiser statistics frozen after the first call: a constant gain, so that cutting the block up adds no amplitude modulation of its own
+        c["num_subblocks"] = spb // taps
+        c["req"]["period"] = -1
+        c["dig"] = dict(period=-1)
     return c
 
 
@@ -90,7 +106,7 @@ def run(ctx):
     ctx.rule = ("header: random (sample rate, branches, first channel, channels, antennas, pols, bits, orientation, fch1); tone: single tone or "
                 "slow chirp in a recorded coarse channel other than DC, on and off fine-bin centres, within 0.4 channel of the channel centre "
                 "but not on it, both orientations, first channel > 0 allowed, 4/8 bit, 1-2 pols, 1-2 antennas, fine FFT 16/32/64, "
-                "integration 1-3, padded and unpadded headers; non-trivial = start_chan > 0 or descending; distinct = distinct case")
+                "integration 1-3, padded and unpadded headers, blocks computed in 1, 2 or the maximal number of sub-blocks; non-trivial = start_chan > 0 or descending; distinct = distinct case")
     ctx.assumptions = ["a sampled cosine of baseband frequency g peaks in PFB channel round(g/cbw) and fine bin round(.) -- a DSP fact that is "
                        "validated by these runs, not proved (DESIGN.md section 6)",
                        "header floats are compared with the exact rational model to 1e-12 relative"]
@@ -154,7 +170,7 @@ def run(ctx):
     for c, r, sv in zip(tcases, timpl, svals):
         ctx.count(dict(k="tone", c=c), nontrivial=(c["start_chan"] > 0 or not c["ascending"]))
         ctx.tally("tone_kind", "chirp" if c["drift"] else "tone"); ctx.tally("fftlength", c["fftlength"]); ctx.tally("int_factor", c["int_factor"])
-        ctx.tally("tone_bits_pols", "%d/%d" % (c["nbits"], c["num_pols"]))
+        ctx.tally("tone_bits_pols", "%d/%d" % (c["nbits"], c["num_pols"])); ctx.tally("subblocks", "maximal partition" if c["num_subblocks"] > 2 else c["num_subblocks"])
         fine = r["fine_hz"]
         rows = len(r["indep_peaks_hz"])
         dt_row = c["fftlength"] * c["int_factor"] * r["tbin"]
